@@ -283,7 +283,7 @@ class Program:
 # ------------------------------------------------------------------------------------------
 
 def show(n, depth=0):
-    if n is None:
+    if not n:
         return ""
     if depth > 12:
         return "…"
